@@ -236,9 +236,10 @@ C15(z) ==
              W(2147483647), Neg(TwoTo31)}
       ms == {W(0), W(1), W(2), W(6), W(7), W(12), W(13), TwoTo31, U32Max}
       ds == {W(0), W(1), W(12), W(13), W(22), W(23), W(28), W(29), W(30), W(31), W(32), TwoTo31, U32Max}
-      hs == {W(0), W(23), W(24), U32Max}
-      mis == {W(0), W(59), W(60), U32Max}
-      ss == {W(0), W(59), W(60), TwoTo31}
+      \* incl. values that are small again once narrowed to 8 or 16 bits
+      hs == {W(0), W(23), W(24), U32Max, W(256), W(65536)}
+      mis == {W(0), W(59), W(60), U32Max, W(256), W(315), W(65536), TwoTo31}
+      ss == {W(0), W(59), W(60), TwoTo31, W(256), W(65595)}
   IN {Case([op |-> op, y |-> y, m |-> m, d |-> d], DateV(0), DateV(0)) : op \in {"date_from_ymd", "dt_from_ymd"}, y \in ys, m \in ms, d \in ds}
      \cup {Case([op |-> op, h |-> h, mi |-> mi, s |-> s], DateV(0), DateV(0)) : op \in {"dt_from_hms", "time_from_hms"}, h \in hs, mi \in mis, s \in ss}
      \cup {Case([op |-> "dt_from_ymdhms", y |-> y, m |-> m, d |-> d, h |-> h, mi |-> mi, s |-> s], DateV(0), DateV(0)) :
